@@ -126,6 +126,7 @@ class Interp:
         self.summaries = summaries
         self.depth = depth
         self.trace_deref_stores = False   # also log stores through references that point into locals
+        self.log_reads = False            # log reads of memory reachable from reference parameters
         self.world = world
         self.body = body
         self.cfg = cfgmod.cfg_of(body)
@@ -350,7 +351,10 @@ class Interp:
         if "const" in o:
             return self.const_val(o["const"])
         p = o.get("copy") or o.get("move")
-        v = self._read(st, self.canon(st, p))
+        path = self.canon(st, p)
+        if self.log_reads and path and path[0][0] == "A" and len(path) > 1:
+            st.trace = st.trace + (("read", st.bb, path),)
+        v = self._read(st, path)
         return self.resolve(st, v)
 
     # constraint helpers -----------------------------------------------------
@@ -847,6 +851,12 @@ class Interp:
                         model = m
                         break
         if model is not None:
+            if self.log_reads:
+                for i, a in enumerate(t["args"]):
+                    p = a.get("copy") or a.get("move")
+                    if p is not None and not p["proj"] and self.body.locals[p["local"]]["tk"] == "ref" and args[i][0] == "ref" \
+                            and args[i][1] and args[i][1][0][0] == "A" and len(args[i][1]) > 1:
+                        st.trace = st.trace + (("read", bb, args[i][1]),)
             res = model(self, st, t, args, bb)
             if res is not None:
                 outs = []
@@ -872,6 +882,9 @@ class Interp:
             if p is None:
                 continue
             lt = self.body.locals[p["local"]]
+            if self.log_reads and not p["proj"] and lt["tk"] in ("ref", "refmut") and args[i][0] == "ref" and args[i][1] and args[i][1][0][0] == "A" \
+                    and len(args[i][1]) > 1 and (name is None or self.world.body(name) is None):
+                s2.trace = s2.trace + (("read", bb, args[i][1]),)
             if not p["proj"] and lt["tk"] == "refmut" and args[i][0] == "ref":
                 if written is None:
                     self._havoc(s2, args[i][1], "%d.a%d" % (bb, i))
